@@ -4,7 +4,7 @@ CONSTANTS
   NY = 1
   NDim = 2
   Bug = "none"
-  ClickX <- MC_GeoX
+  ClickX <- MC_GeoXThorough
   ClickY <- MC_GeoYThorough
   DragD <- MC_GeoDrag
   MaxShapes = 2
@@ -26,5 +26,6 @@ PROPERTY ToggleKeepsMasks
 PROPERTY ActivationIsExclusive
 PROPERTY RemoveKeepsTheRest
 PROPERTY EditsAreLocal
+PROPERTY MasksFollowShapes
 PROPERTY GrowthOnlyBySecondClick
 CHECK_DEADLOCK FALSE
